@@ -982,6 +982,16 @@ func checkVarsHalf(c *Ctx, report bool) {
 	for _, l := range strings.Split(probe, "\t") {
 		fmt.Println("  ", l)
 	}
+	// one map object at two positions of different declared types (Go-only: the model has values, not objects)
+	for _, l := range strings.Split(c.Worker.One("varsalias "+impl.HexW([]byte(sdl))), "\t") {
+		c.Ev.Count("shared-map-probes", 1)
+		if strings.Contains(l, "fresh=ERR") && !strings.Contains(l, "shared=ERR") {
+			c.Report("spec", "vars-conforms:shared-map-object-not-judged-per-position", "VariableValues with ONE map object supplied at two positions of different input types: "+l+" (two equal but distinct maps are refused)",
+				map[string]any{"op": "varsalias", "schema": sdl, "probe": l})
+		} else if !strings.Contains(l, "fresh=ERR") {
+			fmt.Println("  (shared-map probe without a refused reference run: " + l + ")")
+		}
+	}
 	printCounts("generator distribution (values generated, by feature):", g.dist)
 	printCounts("what happened to the generated cases:", st.outcome)
 	fmt.Printf("direct specification checks (Conforms on every returned value, Coercible on its supplied value): %d returned values judged\n", st.judged)
